@@ -26,10 +26,10 @@ func init() {
 }
 
 var genRules = map[string]string{
-	"C04": "marshal: for every message type of the corpus and every variant, each field alone at boundary values (0-3 elements / zero, -1, min, max, -0.0, empty, 130-byte) on top of the minimal message, plus random value trees (depth <= 3, empty nested messages, nil-vs-empty Go slices/maps): Size() = len(Marshal()), MarshalTo(make([]byte, Size())) writes the same bytes, no panic; non-trivial = non-empty encoding; first-use: for every message type that can carry proto2 extensions (a thin sample of the others), rounds of: csproto.VerifResetMsgTypeCache(), then 8 goroutines released together by a spin barrier, each calling Size/Marshal/MarshalTo (generated and through csproto) on a message of its own with >= 2 extensions set: no panic, Size() = len(bytes) = the sequential value",
+	"C04": "marshal: for every message type of the corpus and every variant, each field alone at boundary values (0-3 elements / zero, -1, min, max, -0.0, empty, 130-byte) on top of the minimal message, plus random value trees (depth <= 3, empty nested messages, nil-vs-empty Go slices/maps; one random value in four with required fields left unset at any depth, and per type with required fields the value with nothing set), every length-delimited scalar position alone (packed list of each kind, string, bytes) with a payload of exactly 2^14-1, 2^14 and 2^14+1 bytes (packed lists: widest encoding topped up with the narrowest, narrowest only, alternating): Size() = len(Marshal()), MarshalTo(make([]byte, Size())) writes the same bytes, no panic; non-trivial = non-empty encoding; first-use: for every message type that can carry proto2 extensions (a thin sample of the others), rounds of: csproto.VerifResetMsgTypeCache(), then 8 goroutines released together by a spin barrier, each calling Size/Marshal/MarshalTo (generated and through csproto) on a message of its own with >= 2 extensions set: no panic, Size() = len(bytes) = the sequential value",
 	"C05": "marshal: the same cases as C04; the bytes of the generated Marshal() are decoded by dynamicpb from the schema alone and compared (proto.Equal: values and presence) with the value the message was built from; the same for what the generated MarshalTo() leaves in dest = scratch[:Size()] for scratch areas pre-filled with 0xff, 0x01, 0x7f and the previous case's output (a recycled buffer), the 0xff result also compared with the model (which fills the whole buffer); nested messages of the single-field cases are alternately minimal and filled (every scalar field set)",
 	"C06": "unmarshal: random value trees encoded by the reference, then rewritten into other legal encodings (fields reordered, packed <-> unpacked, packed runs split, singleton packed runs, singular scalars twice, singular messages split in two, map entries reversed / with key or value omitted / key twice / unknown field inside, unknown fields of all wire types interleaved, recursively in nested messages); destination pre-filled with an unrelated message; result read back through the runtime's own encoder and compared with dynamicpb's decode of the same bytes",
-	"C07": "unknown: the C06 encodings with unknown fields (four wire types; numbers: half of the time N-1 / N+1 of a declared field or declared extension N or a number at either end of an extension range — undeclared numbers INSIDE extension ranges included —, otherwise 900 … 2^29-1) at random positions, also inside nested messages and map entries; directed per message type: nothing but unknown fields (one of each wire type, a run), and for every declared field / extension N the message with N set and unknown fields N+1, N-1 (or, where those are declared, another undefined number) immediately before, between and immediately after the records of N, and the numbers around both ends of every extension range; history after generated Unmarshal: the input buffer overwritten (safe mode), Size+Marshal (unknown bytes — of nested generated messages too — re-emitted byte for byte, counted by Size), the returned buffer overwritten and appended to by the caller, the bytes held by the message and the next Marshal compared again, MarshalTo into a buffer that held other data, csproto.SetExtension / ClearExtension / Has+GetExtension of a DECLARED extension (unknown fields untouched) or ClearAllExtensions (unknown fields outside every extension range untouched), a second Unmarshal into the same message (exactly the second input's unknown fields afterwards)",
+	"C07": "unknown: the C06 encodings with unknown fields (four wire types; numbers: for message types with `reserved` declarations one time in three the first / last / a middle number of a reserved range, otherwise half of the time N-1 / N+1 of a declared field or declared extension N or a number at either end of an extension range — undeclared numbers INSIDE extension ranges included —, otherwise 900 … 2^29-1) at random positions, also inside nested messages and map entries; directed per message type: nothing but unknown fields (one of each wire type, a run), and for every declared field / extension N the message with N set and unknown fields N+1, N-1 (or, where those are declared, another undefined number) immediately before, between and immediately after the records of N, and the numbers around both ends of every extension range, and for every reserved range its first, middle and last number and the undefined numbers next to it with one record of each wire type before and after the nearest declared field; history after generated Unmarshal: the input buffer overwritten (safe mode), Size+Marshal (unknown bytes — of nested generated messages too — re-emitted byte for byte, counted by Size), the returned buffer overwritten and appended to by the caller, the bytes held by the message and the next Marshal compared again, MarshalTo into a buffer that held other data, csproto.SetExtension / ClearExtension / Has+GetExtension of a DECLARED extension (unknown fields untouched) or ClearAllExtensions (unknown fields outside every extension range untouched), a second Unmarshal into the same message (exactly the second input's unknown fields afterwards)",
 	"C08": "unmarshal: the C06 encodings damaged by truncation, bit flips, continuation-bit inflation, junk, huge declared lengths, dangling continuation bytes: no panic, allocation sampled with runtime.MemStats, equality whenever both the generated code and dynamicpb accept",
 	"C09": "histories: per message type, 4-12 steps drawn from reflective field mutation (grow / shrink / set / clear; nested messages — generated and runtime-served ones, as singular field, list element, map value or oneof member — changed in place), each step after a mutation / Size / runtime call observed by a Marshal, by a MarshalTo into a larger buffer that nobody called Size() for, or not at all (so that changes pile up), Size, the runtime's own Size+Marshal, Unmarshal of another message (half of them carrying an unknown field), Reset, Clone, and Marshal — each of these through the generated method, through csproto (Size, Marshal, Unmarshal, Reset, Clone) or through csproto.GrpcCodec — each Marshal compared with marshaling a fresh deep copy (obtained through the runtime's encoder) of the current contents, and every earlier Marshal result re-read after the later calls; the initial message and the Unmarshal payloads carry proto2 extensions (several at once), extensions are set / replaced / cleared through the owning runtime's API as a mutation step, payloads include nil and the empty slice, after every Unmarshal (three routes) the contents must be those the same call leaves in a new message, Marshal is repeated on the untouched message sequentially and from four goroutines at once and must return the same bytes, the same Unmarshal clause for runtime-served messages (gogo twin: XXX_Unmarshal arm; descriptorpb types: proto.Message arm), and the concurrent-first-use workload of C04 with the bytes compared; helpers: messages whose optional fields are assigned through csproto.Bool/Int32/…/String must not share memory",
 	"C10": "clobber: safe-option variants only; after generated Unmarshal the input buffer is overwritten with 0xff and the message is read back through the runtime's encoder before and after; in two cases of three OTHER COMPONENTS RAN BEFORE the Unmarshal under test (1-3 of: lazyproto decode in safe / fast mode incl. nested results and Close, package-level lazyproto.Decode, a hand-written csproto.Decoder switched to fast mode that reads every field and is dropped — handed back if the type offers Release/Close/Free/Recycle —, a decoder whose mode is switched back and forth, generated Unmarshal of the enableunsafedecode variant); lazy-clobber: the string / bytes values (top level and one level down) obtained from a safe-mode lazy decode of the same bytes must not change when that decode's input buffer is overwritten and truncated",
@@ -59,7 +59,7 @@ func runGenProp(c *fw.Ctx, prop string) int {
 	if c.Tier == "thorough" {
 		c.LeanChecker(prop)
 	}
-	return c.Finish(genRules[prop]+"; corpus: proto3 scalars/optionals/packed/unpacked/nested+recursive/oneofs/big field numbers, proto3 maps (11 key kinds, 17 value kinds), proto2 optional/required/repeated/packed/oneof/maps, proto2 extensions, well-known-type imports, special names; variants: google v2, gogo, golang v1 API with a file per message, google v2 with unsafe decoding",
+	return c.Finish(genRules[prop]+"; corpus: proto3 scalars/optionals/packed/unpacked/nested+recursive/oneofs/big field numbers, proto3 maps (11 key kinds, 17 value kinds), proto2 optional/required/repeated/packed/oneof/maps, proto2 extensions, well-known-type imports, special names, `reserved` numbers / ranges / names (proto3 and proto2, nested, next to extension ranges, `to max`, a message with nothing but reserved numbers); variants: google v2, gogo, golang v1 API with a file per message, google v2 with unsafe decoding, and — for every boolean option found in the generator's source (flags.BoolVar) that these do not cover — google v2 and golang v1 API with a file per message with that option switched on, for the schemas whose generated code the option changes (coverage: generator_bool_options_discovered, generator_option_variants_with_other_code_than_the_base_variant)",
 		append(trustedCommon, "protoc-gen-go / protoc-gen-gogo output and the runtimes' own codecs (used to build values and to read them back, never the generated methods)", "dynamicpb as the reference runtime (schema-only decoding)"),
 		[]string{"packages of the corpus that the generator cannot produce or that do not compile are reported under C16 and excluded here (listed in corpus_packages_excluded)",
 			"map iteration order: bytes are compared up to the order of map entries"})
